@@ -282,6 +282,11 @@ class Interp:
                 self.match(e, UNK if not is_unknown(v) else v, env)
             return "maybe"
         if k == "p_path":
+            if p["segs"][-1] == "None" and len(p["segs"]) >= 2 and p["segs"][-2] not in ("Option", "option"):
+                # a user enum's variant called `None` (`ForList::None`), not Option::None
+                if is_unknown(v):
+                    return "maybe"
+                return "yes" if (isinstance(v, tuple) and v[:2] == ("E", "None")) else "no"
             return self._match_variant(p["segs"][-1], (), v, env, None)
         if k == "p_ts":
             return self._match_variant(p["segs"][-1], p["elems"], v, env, None)
@@ -448,7 +453,7 @@ class Interp:
             if n[:1].isupper() and not n.isupper():
                 return [Out("val", ("E", n, ()), st)]
             return [Out("val", UNK, st)]
-        if segs[-1] == "None":
+        if segs[-1] == "None" and segs[-2] in ("Option", "option"):
             return [Out("val", NONE, st)]
         if segs[-1][:1].isupper() and not segs[-1].isupper():
             return [Out("val", ("E", segs[-1], ()), st)]   # unit variant
